@@ -5,6 +5,7 @@ From Coq Require Import String List NArith ZArith Bool Lia ZifyN ZifyNat ZifyBoo
 From J5V.lib Require Import Outcome Json JsonPrint Base64 Civil Decimal.
 From J5V.model Require Import CodecTypes CodecEnc CodecEncSpec CodecEncDec.
 From J5V.model Require CodecDecScalar CodecDec CodecDecTree.
+From J5V.proofs Require CodecDecTime CodecDecDecimal.
 From J5V.proofs Require Import CodecEncProofs CodecEncDecProofs CodecEncTotal CodecEncDecTie CodecEncLex.
 Import ListNotations.
 Local Open Scope N_scope.
@@ -112,6 +113,27 @@ Theorem C01_full_statement_bytes :
                     equiv_root any_inner raw_dec env root m m').
 Proof. exact codec_full_bytes. Qed.
 Print Assumptions C01_full_statement_bytes.
+(* the same with the decoder family's oracle MODELS as premises: time.Parse is that family's model of
+   Go's general layout parser (go_time_parse) and decimal.NewFromString is lib/Decimal — both compared
+   with the real functions on every run of that family's checks; only the strconv float law stays a law *)
+Theorem C01_full_statement_bytes_oracle_models :
+  forall fmt_float any_inner (orc : CodecDecScalar.oracles) env,
+    oneofs_flat env -> oneof_names_ok env -> env_items_ok env ->
+    float_text_ok fmt_float -> orc_float_ok fmt_float orc ->
+    J5V.proofs.CodecDecTime.time_oracle_is_model orc ->
+    J5V.proofs.CodecDecDecimal.decimal_oracle_is_model orc ->
+    inner_ok any_inner ->
+    forall root m, rep_root any_inner env root m ->
+      exists txt J, encode fmt_float any_inner env root m = Ok txt /\ txt = print J /\ wfb J = true /\
+        (CodecDecTree.jdepth J <= CodecDec.max_scan_depth ->
+         exists m', CodecDec.decode_bytes orc env root txt = Ok m' /\
+                    equiv_root any_inner raw_dec env root m m').
+Proof.
+  intros fmt_float any_inner orc env Hflat Hnames Hitems Hfok Hfl Ht Hd Hinner.
+  exact (codec_full_bytes fmt_float any_inner orc env Hflat Hnames Hitems Hfok Hfl
+           (orc_time_from_model orc Ht) (orc_decimal_from_model orc Hd) Hinner).
+Qed.
+Print Assumptions C01_full_statement_bytes_oracle_models.
 Theorem C01_tokenizer_reads_print : forall J, wfb J = true -> lex (print J) = (tokens_of J, false).
 Proof. exact lex_print. Qed.
 Print Assumptions C01_tokenizer_reads_print.
